@@ -1,5 +1,6 @@
 import RModel.Model.Lock
 import RModel.Lemmas.Lock
+import RModel.Lemmas.LockGuard
 import RModel.Gen.LockUsers
 /-
   C12 — the workspace lock gives mutual exclusion.                       (property theorems only)
@@ -100,6 +101,7 @@ theorem inv_initAbsent (n now : Nat) (debug exits : Bool) (ab : Abandon) (ap : B
   · intro _ q; rfl
   · rfl
   · exact hpub
+  · rfl
 
 theorem inv_initHeld (n now ts : Nat) (debug exits : Bool) (ab : Abandon) (ap : Bool)
     (hpub : ab ≠ .none → ap = true) (hm : exits = false ∨ n ≤ 2)
@@ -139,6 +141,7 @@ theorem inv_initHeld (n now ts : Nat) (debug exits : Bool) (ab : Abandon) (ap : 
   · intro h; cases h
   · rfl
   · exact hpub
+  · rfl
 
 /-- **Mutual exclusion from "no lock file"**, any number `n` of processes, every schedule `es`
     (induction over the schedule, not enumeration).  Hypotheses (each one has a witness below showing it
@@ -215,10 +218,7 @@ theorem mutex_absent_plain (n now : Nat) (debug : Bool) (sched : List Nat) :
       intro s
       show (run (stepEv s (.proc p)) (l.map .proc)).now = s.now
       rw [ih]
-      show ((step s p).getD s).now = s.now
-      cases hs : step s p with
-      | none => rfl
-      | some s' => exact step_now hs
+      exact stepEv_proc_now s p
   exact mutex_absent n now debug (sched.map .proc) (by rw [key]; exact Nat.le_add_right _ _)
 
 /-- Non-vacuity: two processes race from "absent"; one enters, the other is refused with EEXIST,
@@ -236,38 +236,7 @@ theorem losers_do_not_enter (s : State) (p : Nat) (e : Err) (h : s.pc p = .faile
     (run s es).pc p = .failed e := by
   induction es generalizing s with
   | nil => exact h
-  | cons ev es ih =>
-    apply ih
-    cases ev with
-    | tick d => exact h
-    | promptInt q =>
-      show (promptExit s q).pc p = .failed e
-      unfold promptExit
-      by_cases hc : q < s.n ∧ s.pc q = .holding
-      · have hqp : p ≠ q := by intro e'; subst e'; rw [h] at hc; cases hc.2
-        rw [if_pos hc]
-        cases s.cell with
-        | none => show upd s.pc q .done p = _; rw [upd_other _ _ _ _ hqp]; exact h
-        | some i =>
-          show (if s.dropChecks = true ∧ i ≠ inoOf q then _ else _ : State).pc p = _
-          split <;> (show upd s.pc q .done p = _; rw [upd_other _ _ _ _ hqp]; exact h)
-      · rw [if_neg hc]; exact h
-    | proc q =>
-      show ((step s q).getD s).pc p = .failed e
-      cases hs : step s q with
-      | none => exact h
-      | some s' =>
-        by_cases hq : p = q
-        · subst hq
-          unfold step at hs
-          split at hs
-          · rw [h] at hs; simp only at hs
-            split at hs
-            · cases hs; exact h
-            · cases hs
-          · cases hs
-        · show s'.pc p = _
-          rw [step_pc_other hs hq]; exact h
+  | cons ev es ih => exact ih _ (stepEv_failed s p e h ev)
 
 /-- the four ways acquire fails are exactly the four error returns of `acquire`; none of them has
     created a file: a process is `failed` only before its `create_new` succeeded -/
@@ -276,19 +245,20 @@ theorem failed_never_owned (e : Err) : (Pc.failed e).owns = false := rfl
 /-- **Lock released**: a holder that runs its work step and `Drop` (three calls) leaves no lock file,
     whatever state it starts from (today's unconditional Drop), or whenever the file is its own (a Drop that
     checks the content, seeded/_fixes/c12_drop_only_own_lock.diff) … -/
-theorem lock_released (s : State) (p : Nat) (hp : p < s.n) (hpc : s.pc p = .holding)
+theorem lock_released (s : State) (p : Nat) (hp : p < s.n) (hpc : s.pc p = .holding) (hg : s.guarded = false)
     (hd : s.dropChecks = false ∨ s.cell = some (inoOf p)) :
     (runP s [p, p, p]).cell = none ∧ (runP s [p, p, p]).pc p = .done :=
-  drop_releases s p hp hpc hd
+  drop_releases s p hp hpc hg hd
 
 /-- Ctrl-C while the confirmation prompt waits (`release_held_locks` + `process::exit`): the lock file is
     gone although no destructor runs; and since `promptInt` is a schedule event, the mutex theorems above
     cover it under every interleaving … -/
 theorem prompt_interrupt_releases (s : State) (p : Nat) (hp : p < s.n) (hpc : s.pc p = .holding)
+    (hg : s.guarded = true → s.guard = none)
     (hd : s.dropChecks = false ∨ s.cell = some (inoOf p)) :
     (promptExit s p).cell = none ∧ (promptExit s p).pc p = .done := by
   unfold promptExit
-  rw [if_pos ⟨hp, hpc⟩]
+  rw [if_pos ⟨hp, hpc, hg⟩]
   cases hc : s.cell with
   | none => exact ⟨rfl, upd_same _ _ _⟩
   | some i =>
@@ -354,7 +324,7 @@ theorem malformed_blocks_forever (n now : Nat) (debug exits : Bool) (ab : Abando
     (run (variant ab ap (initFile n now debug exits c)) es).pc p ≠ .holding ∧
     cellContent (run (variant ab ap (initFile n now debug exits c)) es) = some c := by
   have h0 : Stuck c (variant ab ap (initFile n now debug exits c)) := by
-    refine ⟨?_, ⟨?_, ?_⟩, rfl, rfl, fun _ => rfl⟩
+    refine ⟨?_, ⟨?_, ?_⟩, fun _ => rfl, rfl, rfl, rfl, fun _ => rfl⟩
     · rcases hc with h | h | h
       · exact Or.inr (Or.inl h.1)
       · exact Or.inr (Or.inr h)
@@ -471,20 +441,166 @@ theorem C12_never_blocked_false : ¬ C12_never_blocked := by
   obtain ⟨es, hes⟩ := h (.malformed .garbage) (Or.inr (Or.inl rfl)) (by intro age h; cases h) 1000 (by decide) true false
   exact (malformed_blocks_forever 1 1000 true true .none false .garbage (Or.inl ⟨rfl, by decide⟩) es 0).1 hes
 
+/-! ## the guarded shape (seeded/_fixes/c12_1_guard_lock_file_sequences.diff + c12_2_live_holder_never_stale.diff)
+
+  `acquire` (read the lock file, judge it, remove it, publish ours) and the release paths (`Drop`,
+  `release_held_locks`: check the content, remove) run under an exclusive `flock` on `.renamify`
+  (`Lock.gstep`; the flock is a kernel mutex, `State.guard`), and a lock is removed as stale or orphaned only if
+  its pid is dead.  For that shape mutual exclusion needs NO hypothesis: not on the lock file that is there at
+  the start, not on the clock, not on the number of processes, not on processes leaving. -/
+
+/-- at most one holder, at most one owner, owners' files in place, nothing ever stolen, and when nobody owns
+    the lock the path is empty or still holds the file that was there initially -/
+def SafeG (s : State) : Prop :=
+  AtMostOneHolder s ∧ AtMostOneOwner s ∧ OwnersLinked s ∧ s.stolen = false ∧
+  (Quiescent s → s.cell = none ∨ s.cell = some 0)
+
+theorem safeG_of_ginv {s : State} (h : GInv s) : SafeG s := by
+  refine ⟨?_, h.owners_unique, fun p hp => (h.owners p hp).1, h.notStolen, ?_⟩
+  · intro p q hp hq
+    exact h.owners_unique p q (by rw [hp]; rfl) (by rw [hq]; rfl)
+  · intro hq
+    cases hc : s.cell with
+    | none => exact Or.inl rfl
+    | some i =>
+      by_cases hi : i = 0
+      · subst hi; exact Or.inr rfl
+      · obtain ⟨o, _, hoo⟩ := h.linked i hc hi
+        rw [hq o] at hoo; cases hoo
+
+/-- the three kinds of initial state, with arbitrary values of the other shape flags -/
+def guardedShape (ab : Abandon) (ap sat dc lr : Bool) (s : State) : State :=
+  { s with abandon := ab, atomicPublish := ap, saturating := sat, dropChecks := dc, staleNeedsDead := true,
+           lossyRead := lr, guarded := true }
+
+theorem ginv_initAbsent (n now : Nat) (d e : Bool) (ab : Abandon) (ap sat dc lr : Bool) :
+    GInv (guardedShape ab ap sat dc lr (initAbsent n now d e)) := by
+  constructor
+  · rfl
+  · rfl
+  · intro p _; rfl
+  · intro p hp _; have hp' : p < n := hp; simp [guardedShape, initAbsent, base, pidOf]; omega
+  · intro p h; cases h
+  · intro p h; cases h
+  · intro p ts h; cases h
+  · intro p i h; cases h
+  · intro p c h; cases h
+  · intro p w h; cases h
+  · intro o h; cases h
+  · intro i h; cases h
+  · rfl
+
+/-- ANY lock file may be there at the start: orphaned, stale, empty, damaged, naming a live foreign process … -/
+theorem ginv_initFile (n now : Nat) (d e : Bool) (c : Content) (ab : Abandon) (ap sat dc lr : Bool) :
+    GInv (guardedShape ab ap sat dc lr (initFile n now d e c)) := by
+  constructor
+  · rfl
+  · rfl
+  · intro p _; rfl
+  · intro p hp _; have hp' : p < n := hp; simp [guardedShape, initFile, base, pidOf]; omega
+  · intro p h; cases h
+  · intro p h; cases h
+  · intro p ts h; cases h
+  · intro p i h; cases h
+  · intro p c h; cases h
+  · intro p w h; cases h
+  · intro o h; cases h
+  · intro i h hi
+    have h' : some 0 = some i := h
+    cases h'; exact absurd rfl hi
+  · rfl
+
+theorem ginv_initHeld (n now ts : Nat) (d e : Bool) (hn : 0 < n) (ab : Abandon) (ap sat dc lr : Bool) :
+    GInv (guardedShape ab ap sat dc lr (initHeld n now d e ts)) := by
+  have hpc : ∀ q, (guardedShape ab ap sat dc lr (initHeld n now d e ts)).pc q = if q = 0 then .holding else .start :=
+    fun q => rfl
+  constructor
+  · rfl
+  · rfl
+  · intro p hp
+    have hp' : n ≤ p := hp
+    rw [hpc, if_neg (by omega)]
+  · intro p hp _; have hp' : p < n := hp; simp [guardedShape, initHeld, base, pidOf]; omega
+  · intro p h; rw [hpc] at h; split at h <;> cases h
+  · intro p h; cases h
+  · intro p ts' h; rw [hpc] at h; split at h <;> cases h
+  · intro p i h; rw [hpc] at h; split at h <;> cases h
+  · intro p c h; rw [hpc] at h; split at h <;> cases h
+  · intro p w h; rw [hpc] at h; split at h <;> cases h
+  · intro o ho
+    rw [hpc] at ho
+    by_cases ho0 : o = 0
+    · subst ho0
+      refine ⟨rfl, ts, ?_⟩
+      show upd (fun _ => Content.empty) (inoOf 0) (Content.pidts (pidOf 0) ts) (inoOf 0) = _
+      exact upd_same _ _ _
+    · rw [if_neg ho0] at ho; cases ho
+  · intro i h _
+    have h' : some (inoOf 0) = some i := h
+    cases h'
+    exact ⟨0, rfl, rfl⟩
+  · rfl
+
+/-- **Mutual exclusion under the guard, from every initial lock-file state, any number of processes, every
+    schedule** (calls, clock ticks of any size, Ctrl-C at prompts, processes leaving). -/
+theorem mutex_guarded {s0 : State} (h : GInv s0) (es : List Ev) : SafeG (run s0 es) :=
+  safeG_of_ginv (GInv.run es h)
+
+theorem mutex_guarded_absent (n now : Nat) (d e : Bool) (ab : Abandon) (ap sat dc lr : Bool) (es : List Ev) :
+    SafeG (run (guardedShape ab ap sat dc lr (initAbsent n now d e)) es) :=
+  mutex_guarded (ginv_initAbsent n now d e ab ap sat dc lr) es
+
+theorem mutex_guarded_any_lock_file (n now : Nat) (d e : Bool) (c : Content) (ab : Abandon) (ap sat dc lr : Bool)
+    (es : List Ev) : SafeG (run (guardedShape ab ap sat dc lr (initFile n now d e c)) es) :=
+  mutex_guarded (ginv_initFile n now d e c ab ap sat dc lr) es
+
+theorem mutex_guarded_live_holder (n now ts : Nat) (d e : Bool) (hn : 0 < n) (ab : Abandon) (ap sat dc lr : Bool)
+    (es : List Ev) : SafeG (run (guardedShape ab ap sat dc lr (initHeld n now d e ts)) es) :=
+  mutex_guarded (ginv_initHeld n now ts d e hn ab ap sat dc lr) es
+
+/-- `withGuard` (all repairs) is one of these shapes -/
+example (s : State) : withGuard s = guardedShape .unparsable true true true true s := rfl
+
+/-- the schedules that break the unguarded shape, replayed on the guarded one (a call on a held guard does not
+    return: the blocked process's turns are no-ops): orphan race, stale race, unparsable cleaner race,
+    three-process exit race, live holder older than 300 s -/
+example : let s := runP (withGuard (orphanState 2)) (raceSchedule ++ [1, 1])
+    s.pc 0 = .holding ∧ s.pc 1 = .failed (.alreadyRunning (pidOf 0)) ∧ s.stolen = false := by decide
+example : let s := runP (withGuard (staleState 2)) (raceSchedule ++ [1, 1])
+    s.pc 0 = .holding ∧ s.pc 1 = .failed (.alreadyRunning (pidOf 0)) ∧ s.stolen = false := by decide
+example : let s := runP (withGuard (initFile 2 1000 true true .garbage)) (raceSchedule ++ [1, 1])
+    s.pc 0 = .holding ∧ s.pc 1 = .failed (.alreadyRunning (pidOf 0)) ∧ s.stolen = false := by decide
+example : let s := runP (withGuard (initAbsent 3 1000 true true)) exitRaceSchedule
+    s.pc 1 = .failed (.alreadyRunning (pidOf 0)) ∧ s.pc 2 = .start ∧ s.stolen = false := by decide
+example : let s := runP (withGuard (initHeld 2 1000 true true 699)) [1, 1, 1, 1, 1, 1, 1, 1]
+    s.pc 0 = .holding ∧ s.pc 1 = .failed (.alreadyRunning (pidOf 0)) ∧ s.stolen = false := by decide
+/-- a non-UTF-8 lock file is unparsable, hence abandoned: one process cleans it up and acquires -/
+example : (runP (withGuard (initFile 1 1000 true true .invalid)) [0, 0, 0, 0, 0, 0, 0, 0]).pc 0 = .holding := by decide
+
+/-- the guard alone is not enough for a holder older than 300 s: with "stale needs dead" off it is still evicted
+    (the hypothesis `staleNeedsDead` of `GInv`; repaired by c12_2_live_holder_never_stale.diff) -/
+theorem C12_witness_guard_without_liveness :
+    let s := runP { withGuard (initHeld 2 1000 true true 699) with staleNeedsDead := false } [1, 1, 1, 1, 1, 1, 1, 1]
+    s.pc 0 = .holding ∧ s.pc 1 = .holding ∧ s.stolen = true := by decide
+
+
 /-! ## the source fingerprint and the table of lock users (generated from /repo on every run) -/
 
 open Gen.LockUsers
 
-theorem acquire_shape_matches : acquireShape = Lock.expectedAcquireShape abandonPolicy publishByLink := by decide
+theorem acquire_shape_matches :
+    acquireShape = Lock.expectedAcquireShape abandonPolicy publishByLink guardedSequences := by decide
 theorem drop_shape_matches : dropShape = Lock.expectedDropShape dropChecksContent := by decide
 theorem release_held_shape_matches : releaseHeldShape = Lock.expectedReleaseHeldShape := by decide
 theorem stale_timeout_matches : staleTimeoutSecs = Lock.staleTimeout := by decide
 /-- `parts.len() == 2`, `parse::<u32>().unwrap_or(0)`, `parse::<u64>().unwrap_or(0)` -/
 theorem parse_shape_matches :
     partsTestIsEq = true ∧ partsLen = 2 ∧ parseDefaults = [(32, 0), (64, 0)] := by decide
-/-- `if age > 300 {remove} else if running {fail} else {remove}` as modelled by `Lock.decide'` -/
+/-- `if age > 300 {remove} else if running {fail} else {remove}`, or — a live holder is never stale —
+    `if pid != 0 && running {fail} else if age > 300 {remove} else {remove}`, as modelled by `Lock.decide'` -/
 theorem decision_chain_matches :
-    decisionChain = [(.staleGt, .remove), (.running, .fail), (.otherwise, .remove)] := by decide
+    decisionChain = (if liveNeverStale then [(.running, .fail), (.staleGt, .remove), (.otherwise, .remove)]
+                     else [(.staleGt, .remove), (.running, .fail), (.otherwise, .remove)]) := by decide
 /-- the model's states are built with the flags of the source: `Driver/OpsLock.lean` reads them from here -/
 theorem source_flags_are_booleans : (ageSaturates = true ∨ ageSaturates = false) ∧
     (dropChecksContent = true ∨ dropChecksContent = false) := by decide
@@ -562,6 +678,34 @@ theorem mutex_live_holder_source (n now ts : Nat) (hn : 0 < n) (hts : ts ≤ now
     Safe (run (variant abandonPolicy publishByLink (initHeld n now debug false ts)) es) :=
   safe_of_inv (Inv.run es (inv_initHeld n now ts debug false abandonPolicy publishByLink source_publish_condition
     (Or.inl rfl) hn hts) hclk)
+
+/-- the shapes of `lock.rs` for which mutual exclusion is proved: unguarded (theorems `mutex_*_source` above, with
+    their clock / exit hypotheses), or guarded with "a live holder is never stale" and publish by link
+    (`mutex_source_guarded` below, no hypotheses).  A guard without the liveness repair is not covered. -/
+theorem source_shape :
+    guardedSequences = false ∨ (guardedSequences = true ∧ liveNeverStale = true ∧ publishByLink = true) := by decide
+
+/-- the model state with every shape flag taken from the source -/
+def srcShape (s : State) : State :=
+  { s with abandon := abandonPolicy, atomicPublish := publishByLink, saturating := ageSaturates,
+           dropChecks := dropChecksContent, staleNeedsDead := liveNeverStale, lossyRead := readsLossily,
+           guarded := guardedSequences }
+
+/-- **If the source is guarded, mutual exclusion holds for it from every initial lock-file state, for any number
+    of processes and every schedule** (vacuous while the source is unguarded) -/
+theorem mutex_source_guarded (hg : guardedSequences = true) (n now : Nat) (d e : Bool) (c : Option Content)
+    (es : List Ev) :
+    SafeG (run (srcShape (match c with | none => initAbsent n now d e | some c => initFile n now d e c)) es) := by
+  have hl : liveNeverStale = true := by
+    rcases source_shape with h | h
+    · rw [hg] at h; cases h
+    · exact h.2.1
+  have e1 : ∀ s, srcShape s = guardedShape abandonPolicy publishByLink ageSaturates dropChecksContent readsLossily s := by
+    intro s; unfold srcShape guardedShape; rw [hg, hl]
+  rw [e1]
+  cases c with
+  | none => exact mutex_guarded_absent n now d e _ _ _ _ _ es
+  | some c => exact mutex_guarded_any_lock_file n now d e c _ _ _ _ _ es
 
 /-- an unparsable (empty or damaged) lock file is abandoned, and the lock file is published by `hard_link`
     (repo commit 35d666f): a leftover file no longer blocks the next command (`malformed_blocks` is repaired
